@@ -186,6 +186,29 @@ def run_property(prop, tier, seed, jobs=None, only=None, budget=None):
             r = explore_parallel(byname[n], nworkers=min(16, os.cpu_count() or 1), deadline=deadline)
             r["phase1_states_discarded"] = results[n]["stats"]["states"]
             results[n] = r
+    # thorough tier: cross-validate the fingerprint abstraction on small cells - every state reached by the
+    # unpruned bounded(1) search must be in the pruned search's visited set, with the same terminal observations
+    xv_results = []
+    if tier == "thorough" and jobs > 1 and time.time() < deadline - 30:
+        import random as _random
+
+        small = [n for n, r in results.items() if r.get("complete") and "stats" in r and 20 <= r["stats"]["states"] <= 2500
+                 and r.get("parallel_workers", 1) == 1 and byname[n].get("world", "pool") != "ctl"]
+        _random.Random(seed).shuffle(small)
+        xcells = []
+        for n in small[:48]:
+            c = dict(byname[n])
+            c.update(name=n + " [xval]", xval=1, xval_max_exec=15000, soft_s=None)
+            byname[c["name"]] = c
+            xcells.append((c, seed, deadline))
+        if xcells:
+            ctx = mp.get_context("fork")
+            with ctx.Pool(min(jobs, len(xcells))) as pool:
+                for r in pool.imap_unordered(run_cell, xcells, chunksize=1):
+                    if "xval" in r:
+                        xv_results.append({"cell": r["name"], **r["xval"]})
+                    if "error" in r:
+                        results[r["name"]] = r
     wall = time.time() - t0
     errors = [r for r in results.values() if "error" in r]
     known = [k for k in load_known() if k["property"] == prop]
@@ -241,6 +264,7 @@ def run_property(prop, tier, seed, jobs=None, only=None, budget=None):
             samples.append({"cell": name, "scenario": byname[name]["scen"], "schedule": r["samples"][0]})
         if "xval" in r:
             xvals.append({"cell": name, **r["xval"]})
+    xvals += xv_results
     evidence = {
         "property_id": prop,
         "tier": tier,
